@@ -7,7 +7,10 @@ use crate::{AnyStoredVec, Error, Result, Stamp, VecIndex, VecValue, Version};
 
 /// Maximum in-memory cache size before forcing a flush (1 GiB).
 /// Prevents unbounded memory growth when pushing many values without flushing.
+#[cfg(not(feature = "verif_hooks"))]
 pub(crate) const MAX_CACHE_SIZE: usize = 1024 * 1024 * 1024;
+#[cfg(feature = "verif_hooks")]
+pub(crate) use crate::verif::MAX_CACHE_SIZE;
 
 /// Typed interface for stored vectors (push, truncate, rollback).
 ///
